@@ -276,10 +276,27 @@ def rule_templates(n):
     return T
 
 
+def slice_compose_shapes():
+    """slices of a concatenation: inside one slot, exactly one slot, across two or three slots, from the middle of one slot to the
+    middle of another (rules that rebase a slice onto a component must check both ends)"""
+    out = []
+    a8, b8, c16 = ('id', 'a', 8), ('id', 'b', 8), ('id', 'c', 16)
+    layouts = [((a8, 0, 8), (b8, 8, 16), (c16, 16, 32)),
+               ((c16, 0, 16), (a8, 16, 24), (b8, 24, 32)),
+               ((('int', 0, 8), 0, 8), (b8, 8, 16), (c16, 16, 32)),
+               ((a8, 0, 8), (('mem', ('id', 'p', 32), 8), 8, 16), (c16, 16, 32)),
+               ((('slice', ('id', 'x', 32), 0, 16), 0, 16), (('slice', ('id', 'x', 32), 16, 32), 16, 32))]
+    bounds = [(0, 4), (0, 8), (0, 12), (4, 8), (4, 12), (4, 20), (8, 16), (8, 24), (12, 20), (0, 16), (8, 32), (15, 17), (16, 32), (20, 28), (0, 32), (1, 31)]
+    for lay in layouts:
+        for lo, hi in bounds:
+            out.append(('slice', ('compose', lay), lo, hi))
+    return out
+
+
 def c05_shapes(tier, seed, widths=None):
     """list of (name, shape)"""
     rnd = random.Random(seed)
-    out = []
+    out = list(slice_compose_shapes()) if (widths is None or 32 in widths) else []
     ws = widths or ([32, 8, 16, 64, 1])
     for n in ws:
         for s in rule_templates(n):
